@@ -27,7 +27,7 @@ DocTree(recs) == IF wrap THEN [NewCont("map") EXCEPT !.keys = <<S("str", "k")>>,
 L == DocTree(lrecs)
 R == DocTree(rrecs)
 
-Cfg(h, o, idk) == [hashes |-> h, arrays |-> "all", aoh |-> o, sets |-> "unique", idkey |-> idk]
+Cfg(h, o, idk) == [hashes |-> h, arrays |-> "all", aoh |-> o, sets |-> "unique", idkey |-> idk, amode |-> "stop"]
 Cfgs == {Cfg(h, o, "") : h \in {"deep", "left", "right"}, o \in {"all", "left", "right", "unique", "deep"}}
 Result(c) == MergeRoot(L, R, c)
 
@@ -41,7 +41,7 @@ Laws == (Len(rrecs) > 0) => \A c \in Cfgs :
         Cardinality({j \in 1..Len(IdsOf(m.tr)) : IdsOf(m.tr)[j] = i}) <=
           IF Cardinality({j \in 1..Len(IdsOf(L)) : IdsOf(L)[j] = i}) > 1 THEN Cardinality({j \in 1..Len(IdsOf(L)) : IdsOf(L)[j] = i}) ELSE 1
 
-CfgName(c) == c.hashes \o "/" \o c.arrays \o "/" \o c.aoh \o "/" \o c.sets
+CfgName(c) == c.hashes \o "/" \o c.arrays \o "/" \o c.aoh \o "/" \o c.sets \o "/stop"
 MOutcome(c) == LET m == Result(c) IN [ok |-> m.ok, info |-> m.info, out |-> IF m.ok THEN TabOf(m.tr) ELSE <<>>]
 Groups == LET outs == {MOutcome(c) : c \in Cfgs} IN
           SetToSeq({[res |-> o, cfgs |-> SetToSeq({CfgName(c) : c \in {x \in Cfgs : MOutcome(x) = o}})] : o \in outs})
